@@ -29,6 +29,10 @@ FR = ['>>> ', '... ', '>>>', '...', '\n', '    ', 'x = 1', '(', ')', '[', ']', "
       '\x1f', '\xa0',
       # google section headers written with blanks before the colon / with a double colon (both are recognised headers)
       'Example :\n    ', 'Returns :\n    x\n', 'Example ::\n    >>> ']
+# the fragments that carry the grammar of doctests (prompts, continuation, brackets, quotes, a directive, a block header):
+# deep strings are enumerated over these only
+CORE = ['>>> ', '... ', '>>>', '...', '\n', '    ', 'x = 1', '(', ')', "'", '"""', '\\', '# xdoctest: +SKIP', 'def f():',
+        'print(1)', ':', 'Example:\n    ', 'want', ';', '[']
 STYLES = ('auto', 'google', 'freeform')
 PROMPTS = ('>>>', '...')
 
@@ -179,38 +183,38 @@ class FragmentSpec(Spec):
     timeout_is_violation = True
     title = 'strings of fragments through parse / parse_docstr_examples / parse_doctestables'
 
-    def __init__(self, name, nfrag, embed_upto):
+    def __init__(self, name, nfrag, embed_upto, alphabet=None):
         self.name = name
         self.nfrag = nfrag
         self.embed_upto = embed_upto
         self.max_len = nfrag
-        self.rule = ('all strings of <= %d fragments out of %d (strings of >= 3 fragments must contain a prompt piece); '
+        self.FR = list(alphabet) if alphabet is not None else FR
+        self.rule = ('all strings of <= %d fragments out of %d%s (strings of >= 3 fragments must contain a prompt piece); '
                      'strings of <= %d fragments are additionally embedded as the middle docstring of a module; each x 3 '
-                     'styles; non-trivial = string on which the parser raises its parse error' % (nfrag, len(FR), embed_upto))
+                     'styles; non-trivial = string on which the parser raises its parse error' % (
+                         nfrag, len(self.FR), (' (the core alphabet %r)' % (self.FR,)) if alphabet is not None else '', embed_upto))
 
     def histories(self, stats):
         # shards: one per (first, second) fragment
         yield ('shard', -1, -1)
-        for i in range(len(FR)):
-            for j in range(len(FR)):
+        for i in range(len(self.FR)):
+            for j in range(len(self.FR)):
                 yield ('shard', i, j)
 
     def hist_cost(self, hist):
         return len(hist[1]) if hist[0] == 'str' else 0
 
     def strings(self, i, j):
+        FR_ = self.FR
         if i < 0:
-            for a in FR:
+            for a in FR_:
                 yield (a,)
             return
-        base = (FR[i], FR[j])
+        base = (FR_[i], FR_[j])
         yield base
-        if self.nfrag >= 3:
-            for c in FR:
-                yield base + (c,)
-                if self.nfrag >= 4:
-                    for e in FR:
-                        yield base + (c, e)
+        for extra in range(1, self.nfrag - 1):
+            for tail in itertools.product(FR_, repeat=extra):
+                yield base + tail
 
     def run_case(self, hist):
         import collections
@@ -236,5 +240,5 @@ class FragmentSpec(Spec):
 
 def specs(tier):
     if tier == 'thorough':
-        return [FragmentSpec('fragments<=4', 4, 3)]
+        return [FragmentSpec('fragments<=4', 4, 3), FragmentSpec('core-fragments<=5', 5, 3, alphabet=CORE)]
     return [FragmentSpec('fragments<=3', 3, 3)]
